@@ -738,7 +738,7 @@ def oracle_disagrees(ctx, exprs, n=24):
         im = canon_end(o['iter'])
         try:
             rf = ref.evaluate(e, n)
-        except RecursionError:
+        except (RecursionError, ref.Unsupported):
             continue
         if im != rf:
             bad.append((e, im, rf))
